@@ -10,7 +10,8 @@ from gsa.report import Check
 TABLE = json.load(open(os.path.join(facts.VERIF, 'tables', 'c10.json')))
 FIELD_DIR = 'src/Persistence_matrix/include/gudhi/Fields/'
 UNITS = [Unit('fields', 'fields_inst.cpp',
-              [FIELD_DIR, 'src/Persistent_cohomology/include/gudhi/Persistent_cohomology/Field_Zp.h'])]
+              [FIELD_DIR, 'src/Persistent_cohomology/include/gudhi/Persistent_cohomology/Field_Zp.h',
+               'src/Persistent_cohomology/include/gudhi/Persistent_cohomology/Multi_field.h'])]
 
 
 def field_zp_bound(F):
@@ -112,6 +113,7 @@ def run(tier, replay=None):
     run_refusal(chk, F)
     run_fresh_init(chk, F)
     run_isprime(chk, F, tier)
+    run_partial_inverse(chk, F)
     chk.assumptions += ['clang 14 parser/Sema and its implicit-conversion nodes', 'operands of the arithmetic helpers '
                         'are reduced (the property quantifies over reduced operands)', 'helper contracts of '
                         'tables/c10.json are each verified on the helper itself']
@@ -450,3 +452,94 @@ def run_fresh_init(chk, F):
                    % (bad[0], 'grown (push/insert)' if bad[2] == 'GROW' else 'read', bad[1].get('l')),
                    key='E10init|%s::%s|%s' % (cname, fname, bad[0] if bad else ''))
     chk.expect_count('E10-fresh-init', 'initialisers', n, 6)
+
+
+# ------------------------------------------------------------------ partial inverse: which product the gcd is taken with
+
+def run_partial_inverse(chk, F):
+    """E7/E10: a partial inverse with respect to a sub-product QS of the primes splits QS into the primes dividing x
+    and the primes where x is invertible: QR = gcd(x, QS), T = QS / QR (an exact division because QR divides QS),
+    and the answer is 0 exactly when QR == QS. In every sibling (three GMP classes, three small-characteristic
+    classes of Persistence_matrix, the cohomology Multi_field): (a) the gcd is taken of the element and the sub-product
+    *parameter*, (b) the "nowhere invertible" test compares the gcd with that parameter, (c) T is that parameter
+    divided by the gcd. A gcd with the product of all primes makes T an inexact quotient as soon as x is divisible
+    by a prime outside QS."""
+    sites = []
+    for f in F.functions:
+        if f.get('inst') not in (0, 2) or f.get('body') is None:
+            continue
+        if f['name'] not in ('get_partial_inverse', 'inverse'):
+            continue
+        gs = [x for x in ir.walk(f['body']) if ir.is_call(x) and (ir.call_name(x) or '').lstrip('_').replace(
+            'gmpz_', '').replace('mpz_', '') == 'gcd']
+        if not gs:
+            continue
+        sites.append((f, gs))
+    chk.expect_count('E7-partial-inverse', 'partial-inverse implementations', len(sites), 7)
+    for f, gs in sites:
+        where = '%s:%d' % (rel(f['file']), f['line'])
+        cls = f['qual'].split('::')[-2]
+        sub = f['params'][-1]['n']
+        elem = f['params'][0]['n'] if len(f['params']) == 2 else 'element_'
+        # locals -> text of what they were computed from (one level is all these functions use)
+        defs = {}
+        for x in ir.walk(f['body']):
+            if x.get('k') == 'VarDecl' and x.get('init') is not None:
+                defs[x['n']] = ir.show(x['init'])
+        import re
+
+        def mentions(text, name):
+            return re.search(r'(?<![\w.])%s(?![\w])' % re.escape(name), text) is not None
+
+        def dep(text, name, depth=3):
+            if mentions(text, name):
+                return True
+            if depth == 0:
+                return False
+            return any(mentions(text, v) and dep(t, name, depth - 1) for v, t in defs.items())
+        g = gs[0]
+        args = [ir.show(a) for a in ir.call_args(g)]
+        nm = ir.call_name(g) or ''
+        if 'mpz' in nm:
+            res = args[0].split('.')[0]
+            ops = args[1:]
+        else:
+            ops = args
+            res = None
+            for x in ir.walk(f['body']):
+                if x.get('k') == 'VarDecl' and x.get('init') is not None and ir.contains(x['init'], lambda y: y is g):
+                    res = x['n']
+        if res is None:
+            raise AnalysisBroken('C10 partial inverse: result of the gcd in %s is not bound to a local' % f['qual'])
+        ok_a = any(dep(o, sub) for o in ops) and any(dep(o, elem) for o in ops)
+        chk.ob('E7-partial-inverse', '%s::%s: the gcd is taken of the element and the sub-product parameter `%s`'
+               % (cls, f['name'], sub), '%s:%s' % (rel(f['file']), g.get('l')), ok_a,
+               '' if ok_a else 'gcd(%s): the sub-product `%s` is not an operand - with the product of all primes '
+               'the quotient %s / gcd is inexact when the element is divisible by a prime outside the sub-product'
+               % (', '.join(ops), sub, sub), key='E7|%s::%s|gcd-operand' % (cls, f['name']))
+        # (b) zero test
+        tests = []
+        for x in ir.walk(f['body']):
+            if x.get('k') == 'IfStmt':
+                c = ir.skipcasts(x.get('cond'))
+                if c is not None and c.get('op') == '==' and ir.contains(x.get('then'),
+                                                                         lambda y: y.get('k') == 'ReturnStmt'):
+                    cs = [ir.show(y) for y in (c.get('c') or [])[-2:]]
+                    if any(mentions(t, res) for t in cs):
+                        tests.append((x, cs))
+        ok_b = len(tests) == 1 and any(dep(t, sub) for t in tests[0][1] if not mentions(t, res))
+        chk.ob('E7-partial-inverse', '%s::%s: "invertible nowhere" is decided by gcd == `%s`' % (cls, f['name'], sub),
+               where, ok_b, '' if ok_b else ('no single early return on `%s == ...`' % res if len(tests) != 1 else
+                                             'the gcd is compared with %s, not with the sub-product' %
+                                             [t for t in tests[0][1] if not mentions(t, res)]),
+               key='E7|%s::%s|zero-test' % (cls, f['name']))
+        # (c) quotient
+        quots = []
+        for x in ir.walk(f['body']):
+            if x.get('k') in ('BinaryOperator', 'CXXOperatorCallExpr') and x.get('op') == '/':
+                cs = [ir.show(y) for y in (x.get('c') or [])[-2:]]
+                if mentions(cs[1], res):
+                    quots.append(cs)
+        ok_c = len(quots) >= 1 and all(dep(q[0], sub) for q in quots)
+        chk.ob('E7-partial-inverse', '%s::%s: T is `%s` divided by the gcd' % (cls, f['name'], sub), where, ok_c,
+               '' if ok_c else 'quotients by the gcd: %s' % quots, key='E7|%s::%s|quotient' % (cls, f['name']))
